@@ -375,7 +375,7 @@ pub fn materialize(sc: &Scenario, root: &Path) -> std::io::Result<Case> {
         }
     }
     for (k, v) in &sc.vars {
-        std::fs::write(case.vars_dir().join(k), v.as_bytes())?;
+        std::fs::write(case.vars_dir().join(k), simrt::vfs::decode_bytes(v))?;
     }
     case.clock += 1;
     Ok(case)
